@@ -17,3 +17,5 @@ INVARIANT H_ReaderOrder
 INVARIANT H_Dispose
 INVARIANT H_Release
 INVARIANT L_ReleaseOnError
+INVARIANT H_CallBound
+INVARIANT L_NothingAtCall
